@@ -148,8 +148,8 @@ theorem read_print (ff : FloatFmt) (hlaw : FloatLaw ff) (v : Sexp) (hv : okV v =
   -- lazy = eager
   have hrunes : cs.flatten ++ eofPiece = printSexp ff v ++ ['\n'] := by rw [hcs]; rfl
   rw [hrunes] at hst hex
-  have hahead := runA_ahead (topLoop (fuelFor cs)) ⟨LexCore.init, printSexp ff v ++ ['\n'], []⟩ ⟨cf, [], []⟩
-    ⟨hfeed, rfl, rfl⟩
+  have hahead := runA_ahead (topLoop (fuelFor cs)) ⟨LexCore.init, printSexp ff v ++ ['\n'], [], true⟩ ⟨cf, [], [], true⟩
+    ⟨hfeed, rfl, rfl, rfl⟩
   -- parsing the tokens
   have hfuel : fuelFor cs = (4 * (printSexp ff v).length + 14) + 2 := by simp [fuelFor, hcs]
   have hcost := cost_bound ff hlaw v hv
